@@ -110,6 +110,13 @@ static FwdRes judge_fwd(Ctx& c, int zone, bool northp, double x, double y, const
         else if ((m.fold_inexact || m.product) && m.pm.legal && (f.s == rm::encode(m.pm, be.band, prec) || (be.other != rm::NONE && f.s == rm::encode(m.pm, be.other, prec)))) {
           key = m.fold_inexact ? "oracle:C05/forward/not-exact-truncation/north-to-south-fold-y+1e7-rounded" : "oracle:C05/forward/not-exact-truncation/product-x*1e6-rounded-up";
           if (!m.fold_inexact && prec <= 5) key += "/prec<=5";
+          if (!m.fold_inexact && prec >= 6) {
+            // MGRS.hpp: "for prec in [6, 11] the conversion is accurate to round-off": a digit string that is the truncation of
+            // fl(x * 10^6) instead of x * 10^6 (they differ only when the exact product is < 1/2 ulp below an integer) is accepted
+            c.event("forward: prec >= 6 digits are the truncation of fl(x * 10^6) (exact product < 1/2 ulp below the next micrometre; documented round-off)");
+            R.out[prec + 1] = f.s;
+            continue;
+          }
           c.event(m.fold_inexact ? "forward: string explained by the rounding of y + 1e7 (fold)" : "forward: string explained by the rounding of x * 1e6");
         }
         c.viol(key, cls, jpt(zone, northp, x, y).i("prec", prec).str("got", f.s).str("want", want).i("ref_ix_um", p.ix).i("ref_iy_um", p.iy));
@@ -176,6 +183,8 @@ static void judge_fwd_lat(Ctx& c, int zone, bool northp, double x, double y, dou
     auto explained = [&](int band) { return m.pm.legal && LT.in(band, m.pm.col(), m.pm.truerow()) == 1 && f.st == 0 && f.s == rm::encode(m.pm, band, prec); };
     if (m.subnormal) c.viol("oracle:C05/forward/negative-subnormal-northing", cls, w.str("got", f.s).str("what", f.what));
     else if (m.fold_to_equator) c.viol(f.st ? "oracle:C05/forward/rejected-legal-coordinate/north-convention-northing-in-(-1nm,0)" : "oracle:C05/forward/not-exact-truncation/north-convention-northing-in-(-1nm,0)", cls, w.str("got", f.s).str("what", f.what));
+    else if (m.product && !m.fold_inexact && prec >= 6 && !want.empty() && (explained(b) || (other != rm::NONE && nm <= NEIGHBOUR_NM && explained(other))))
+      c.event("forward-lat: prec >= 6 digits are the truncation of fl(x * 10^6) (documented round-off)");
     else if ((m.fold_inexact || m.product) && !want.empty() && (explained(b) || (other != rm::NONE && explained(other))))
       c.viol(m.fold_inexact ? "oracle:C05/forward/not-exact-truncation/north-to-south-fold-y+1e7-rounded" : "oracle:C05/forward/not-exact-truncation/product-x*1e6-rounded-up", cls, w.str("got", f.s).str("want", want));
     else if (want.empty()) c.viol("oracle:C05/forward-lat/inconsistent-latitude-accepted", cls, w.str("got", f.s).i("band_of_lat", b));
